@@ -285,3 +285,53 @@ def field_input_system(rng, name='fld'):
         return {'amp': dd * np.mean(pf, axis=-1) + 0.5 * dd ** 2}
     comp = Component(model, [d, p], [amp], name='fq', data_fidelity=(2, 2), vectorized=True)
     return System(comp, name=name), None
+
+
+def persist_chain_system(rng, ncomp=None, name='ps', with_alpha=True, norms=False, serial=False, max_level=2, no_surrogate_prob=0.0,
+                         root_dir=None, costs=False):
+    """like random_chain_system but with module-level models (models_lib.poly_model + model kwargs), so the system can be
+    saved to file and loaded again.  Returns (system, spec)."""
+    from amisc import Component, System, Variable
+    import models_lib
+    ncomp = ncomp or rng.randint(1, 3)
+    spec, produced, xcount = [], [], 0
+    for k in range(ncomp):
+        ex = []
+        for _ in range(rng.randint(1, 2)):
+            if xcount > 0 and rng.random() < 0.25:
+                ex.append(f'x{rng.randrange(xcount)}')
+            else:
+                ex.append(f'x{xcount}'); xcount += 1
+        ex = list(dict.fromkeys(ex))
+        up = rng.sample(produced, k=min(len(produced), rng.randint(0 if k == 0 else 1, 2))) if produced else []
+        in_names = ex + up
+        outs = [f'y{k}_{j}' for j in range(rng.randint(1, 2))]
+        has_surr = rng.random() >= no_surrogate_prob
+        lev = [rng.randint(1, max_level) for _ in in_names]
+        terms = {o: [[c, list(e)] for c, e in random_terms(rng, len(in_names), [2 * l for l in lev])] for o in outs}
+        na = rng.randint(0, 1) if (with_alpha and has_surr) else 0
+        spec.append({'name': f'c{k}', 'inputs': in_names, 'outputs': outs, 'terms': {o: [(c, tuple(e)) for c, e in t] for o, t in terms.items()},
+                     'raw_terms': terms, 'levels': lev, 'na': na, 'has_surrogate': has_surr, 'alpha_gain': 0.125 if na else 0.0,
+                     'cost': (rng.choice([0.5, 1.0, 3.0]) if costs else None)})
+        produced += outs
+    variables = {}
+    for k in range(xcount):
+        lo = rng.choice([-2, -1, 0, 1]); w = rng.choice([1, 2, 4])
+        variables[f'x{k}'] = Variable(f'x{k}', distribution=f'U({lo}, {lo + w})',
+                                      norm=(rng.choice([None, 'linear(0.5, 1)', 'zscore(1, 2)']) if norms else None))
+    for s in spec:
+        for o in s['outputs']:
+            variables[o] = Variable(o, domain=(-50.0, 50.0), norm=(rng.choice([None, 'linear(0.5, 1)']) if norms else None))
+    comps = []
+    for s in spec:
+        kw = {}
+        if s['has_surrogate']:
+            kw['data_fidelity'] = tuple(s['levels'])
+            if s['na']:
+                kw['model_fidelity'] = (1,) * s['na']
+        comps.append(Component(models_lib.poly_model_serial if serial else models_lib.poly_model,
+                               [variables[n] for n in s['inputs']], [variables[o] for o in s['outputs']], name=s['name'],
+                               vectorized=not serial, in_names=list(s['inputs']), terms=s['raw_terms'], alpha_gain=s['alpha_gain'],
+                               cost=s['cost'], **kw))
+    system = System(*comps, name=name, root_dir=root_dir)
+    return system, spec
